@@ -1,6 +1,6 @@
 """C19 — JSON.parse / JSON.stringify (structural clauses)."""
 
-from ..rules import builtins, exceptions, recursion, operators
+from ..rules import builtins, exceptions, recursion, operators, textparse
 
 
 def run(ctx, rep):
@@ -18,4 +18,5 @@ def run(ctx, rep):
     builtins.rule_json_omission(ctx, rep, "C19-R5")
     operators.rule_key_not_truth_tested(ctx, rep, "C19-R6", only=lambda q: "_create_json_object" in q or "_json" in q)
     operators.rule_json_integer_tokens(ctx, rep, "C19-R7")
+    textparse.rule_host_pattern_end_anchor(ctx, rep, "C19-R8", modules=("context", "values"), only=lambda q: "_create_json_object" in q)
     rep.undecided += ["parse(stringify(v)) structurally equal to v for all values, canonical form of stringify(parse(t)) (round-trip properties)"]
